@@ -19,3 +19,27 @@ run, replay = make(
     assumptions=["nslmc/wasmref.py implements the 1.0 binary format and validation rules", "wasmtime accepts a superset of 1.0; it may only reject what wasmref rejects"],
     replayer=checkers.replay_wasm_valid,
 )
+
+
+# ------------------------------------------------------------------ neighbour independence (nslmc/wpairs.py)
+from .. import wpairs
+
+_family_run, _family_replay = run, replay
+
+
+def run(tier, seed):
+    out = _family_run(tier, seed)
+    total, n, fails, counts = wpairs.run("C07", tier)
+    seen = {f["key"] for f in out["failures"]}
+    out["failures"] += [f for f in fails if f["key"] not in seen]
+    out["coverage"]["failing_cases_per_key"].update(counts)
+    out["coverage"]["evaluations"] += n
+    out["coverage"]["distinct_nontrivial"] += n
+    out["coverage"]["per_family"][f"pairs(every ordered pair of the {total} WO programs that translate alone, in one module)"] = n
+    return out
+
+
+def replay(rec, verbose=True):
+    if "|pairs|" in rec["key"]:
+        return wpairs.replay(rec, verbose)
+    return _family_replay(rec, verbose)
